@@ -583,6 +583,15 @@ static Token *subst(Token *tok, MacroArg *args) {
 
       if (arg->tok->kind == TK_EOF) {
         MacroArg *arg2 = find_arg(args, rhs);
+
+        // If the right-hand side is also empty and is itself followed
+        // by ##, the result so far is still a placemarker: let rhs
+        // play the role of the left operand of the next ##.
+        if (arg2 && arg2->tok->kind == TK_EOF && equal(rhs->next, "##")) {
+          tok = rhs;
+          continue;
+        }
+
         if (arg2) {
           for (Token *t = arg2->tok; t->kind != TK_EOF; t = t->next)
             cur = cur->next = copy_token(t);
